@@ -35,17 +35,17 @@ func HarnessOverlay(repoDir, harnessDir string, includeTests bool) (map[string]s
 
 // Stats aggregates solver/engine counters across workers.
 type Stats struct {
-	Workers       int
-	Paths         int
-	Forks         int
-	BranchQueries int
-	AssertQueries int
-	Queries       int
-	Sat, Unsat    int
-	Unknown       int
-	SolverTime    time.Duration
-	SolverErrors  []string
-	Steps         int64
+	Workers                                              int
+	Paths                                                int
+	Forks                                                int
+	BranchQueries                                        int
+	AssertQueries                                        int
+	Queries                                              int
+	Sat, Unsat                                           int
+	Unknown                                              int
+	SolverTime                                           time.Duration
+	SolverErrors                                         []string
+	Steps                                                int64
 	DomainDecisions, DomainRechecks, DomainDisagreements int
 }
 
